@@ -502,6 +502,10 @@ func Both[C any](t *testing.T, s *Spec[C]) {
 
 // Main writes the stats file after the tests ran.
 func Main(m *testing.M) {
+	// The shards run under ulimit -v (10 GiB): keep the collector ahead of it. Some library paths
+	// allocate gigabytes for a moment (a page size read from a header after a failed read) and
+	// several such dead buffers must not pile up until the address space is exhausted.
+	debug.SetMemoryLimit(5 << 30)
 	code := m.Run()
 	flush()
 	os.Exit(code)
